@@ -143,7 +143,8 @@ def structured_patterns(rng, H, W, count):
 # forbids, gets there in a fraction of a second; what it returns is judged by `spec` like every other pattern.
 
 
-def _trail_score(H, W, segs, act, single_cycle):
+def _trail_score(H, W, segs, act, single_cycle, weave=0):
+    """(score, valid).  weave > 0: the objective is tilted towards WOVEN trails: + weave * (4-way points - other visited points)."""
     inc = {}
     for k, (a, b) in enumerate(segs):
         if act[k]:
@@ -165,10 +166,11 @@ def _trail_score(H, W, segs, act, single_cycle):
     active = [k for k in range(len(segs)) if act[k]]
     idx = {k: i for i, k in enumerate(active)}
     ns = len(set(exprio.components(len(active), [(idx[a], idx[b]) for a, b in links])))
-    return sum(act) - 6 * (ns - 1) - 6 * bad, ns == 1 and bad == 0
+    n4 = sum(1 for ks in inc.values() if len(ks) == 4)
+    return sum(act) - 6 * (ns - 1) - 6 * bad + weave * (2 * n4 - len(inc)), ns == 1 and bad == 0
 
 
-def _anneal(rng, H, W, closed, steps):
+def _anneal(rng, H, W, closed, steps, weave=0):
     """Longest valid trail met on one annealing run: `closed` -> unit-cell XOR moves only (all degrees stay even); otherwise also
     single-segment moves, mostly at the current loose ends."""
     import math
@@ -180,7 +182,8 @@ def _anneal(rng, H, W, closed, steps):
     cells = [[k for k, f in enumerate(graphs.rect_pattern(H, W, [(y, x, y + 1, x + 1)])) if f] for y in range(H) for x in range(W)]
     act = graphs.rect_pattern(H, W, [(0, 0, H, W)])
     best = None
-    cs, _ = _trail_score(H, W, segs, act, closed)
+    cs, _ = _trail_score(H, W, segs, act, closed, weave)
+    bs = None
     T = 2.0 if closed else 2.5
     for _ in range(steps):
         new = list(act)
@@ -193,11 +196,11 @@ def _anneal(rng, H, W, closed, steps):
             new[k] = not new[k]
         if not any(new):
             continue
-        ns, nv = _trail_score(H, W, segs, new, closed)
+        ns, nv = _trail_score(H, W, segs, new, closed, weave)
         if ns >= cs or rng.random() < math.exp((ns - cs) / T):
             act, cs = new, ns
-            if nv and (best is None or sum(act) > sum(best)):
-                best = list(act)
+            if nv and (best is None or (ns > bs if weave else sum(act) > sum(best))):
+                best, bs = list(act), ns
         T = max(0.3 if closed else 0.35, T * (0.999 if closed else 0.9995))
     return best
 
@@ -209,8 +212,13 @@ def dense_patterns(rng, H, W, restarts=3):
     base = [_anneal(rng, H, W, True, 3000)] + [_anneal(rng, H, W, False, 8000) for _ in range(restarts)]
     base = [b for b in base if b]
     base.sort(key=lambda b: -sum(b))
+    base = base[:3]
+    # WOVEN trails: the objective tilted towards many 4-way points and few other visited points (from about 5x6 they have more
+    # crossings than ordinary points -- what any counting argument relating the two gets wrong)
+    if H * W >= 20:
+        base += [b for b in (_anneal(rng, H, W, True, 3000, 2), _anneal(rng, H, W, False, 8000, 2), _anneal(rng, H, W, False, 8000, 4)) if b]
     out = []
-    for b in base[:3]:
+    for b in base:
         out.append(tuple(b))
         on = [k for k in range(len(segs)) if b[k]]
         for k in (on[0], on[len(on) // 2]):
@@ -275,7 +283,17 @@ CORPUS = [parse_picture(p) for p in ("""
 +---+   +---+   +   +---+
 """)]
 
-DENSE_FRAMES = ((4, 5), (3, 6), (5, 4), (6, 3), (4, 4), (5, 5), (4, 6))
+def _from_rows(hor, ver):
+    return len(ver), len(hor[0]), tuple(bool(x) for row in hor for x in row) + tuple(bool(x) for row in ver for x in row)
+
+
+# woven trails with MORE 4-way points than ordinary visited points: an open one on a 5x6 frame (20 vs 18), a closed one on 6x6
+CORPUS += [_from_rows([[0, 0, 0, 1, 0, 0], [0, 1, 1, 1, 1, 0], [1, 1, 1, 1, 1, 1], [1, 1, 1, 1, 1, 0], [0, 1, 1, 1, 0, 0], [0, 0, 1, 0, 0, 0]],
+                      [[0, 0, 1, 1, 1, 0, 0], [0, 1, 1, 1, 1, 1, 0], [1, 1, 1, 1, 1, 1, 0], [0, 1, 1, 1, 1, 0, 0], [0, 0, 1, 1, 0, 0, 0]]),
+           _from_rows([[0, 0, 0, 1, 0, 0], [0, 0, 1, 1, 1, 0], [0, 1, 1, 1, 1, 1], [1, 1, 1, 1, 1, 1], [1, 1, 1, 1, 1, 1], [0, 1, 0, 1, 1, 1], [0, 0, 0, 0, 1, 0]],
+                      [[0, 0, 0, 1, 1, 0, 0], [0, 0, 1, 1, 1, 1, 0], [0, 1, 1, 1, 1, 1, 1], [1, 1, 1, 1, 1, 1, 0], [0, 1, 1, 1, 1, 1, 1], [0, 0, 0, 0, 1, 1, 0]])]
+
+DENSE_FRAMES = ((4, 5), (3, 6), (5, 4), (6, 3), (4, 4), (5, 5), (4, 6), (5, 6), (6, 5), (6, 6))
 
 
 def _check_patterns(H, W, single_cycle, patterns):
@@ -343,7 +361,7 @@ def search(ctx, why, frames=None):
             if bad:
                 found[key] = Finding("crossable:" + key, f"active_edges_connected_crossable(single_cycle={sc}) on a {H}x{W} frame, segments={bad[0]}: {bad[1]} but {bad[2]}",
                                      {"H": H, "W": W, "single_cycle": sc, "pattern": bad[0], "structured": True})
-    # DENSE valid trails (annealing) on frames of 16 to 25 cells
+    # DENSE valid trails (annealing) on frames of 16 to 36 cells; from 20 cells also WOVEN ones (see dense_patterns)
     jobs = []
     for (H, W) in DENSE_FRAMES:
         jobs.append((H, W, dense_patterns(ctx.rng, H, W), "dense"))
